@@ -470,8 +470,8 @@ pub fn check(c: &Case) -> Outcome {
             // perturbations of y by one or two ulps in every component (the mixing S g(S^-1 y) cancels, so the
             // noise is not eps*|f_i|)
             let mut noise = vec![0.0f64; n];
-            for q in 0..4 {
-                let yq: Vec<f64> = y.iter().enumerate().map(|(k, v)| v * (1.0 + f64::EPSILON * (((k + q) % 3) as f64 - 1.0) * (1.0 + (q / 2) as f64))).collect();
+            for q in 0..12 {
+                let yq: Vec<f64> = y.iter().enumerate().map(|(k, v)| v * (1.0 + f64::EPSILON * (((k + q + q / 3) % 3) as f64 - 1.0) * (1.0 + (q / 2 % 2) as f64))).collect();
                 let mut fq = vec![0.0; n];
                 prob.f(t, &yq, &mut fq);
                 for i in 0..n {
@@ -490,7 +490,7 @@ pub fn check(c: &Case) -> Outcome {
                 for i in 0..n {
                     let second = (fp[i] - 2.0 * f0[i] + fm[i]).abs();
                     let fscale = f0[i].abs().max(fp[i].abs()).max(fm[i].abs());
-                    let tol = 4.0 * second / (2.0 * delta) + (16.0 * noise[i] + 64.0 * f64::EPSILON * fscale) / delta + 1e-9 * ja[i * n + j].abs();
+                    let tol = 4.0 * second / (2.0 * delta) + (64.0 * noise[i] + 64.0 * f64::EPSILON * fscale) / delta + 1e-9 * ja[i * n + j].abs();
                     let e = (jm[(i, j)] - ja[i * n + j]).abs();
                     if e > tol {
                         return Outcome::viol(format!("default finite-difference Jacobian: entry ({},{}) = {:e} but the analytic one is {:e} (difference {:e}, allowed {:e}; |y_j| = {:e}, |y_i| = {:e})", i, j, jm[(i, j)], ja[i * n + j], e, tol, y[j].abs(), y[i].abs()));
